@@ -38,6 +38,15 @@ def main(tier):
                      "verify_ok": x.get("verify", {}).get("ok", False), "panic": bool(x["client"]["panic"] or x.get("verify", {}).get("panic", "")), "setupOK": x["setupOK"]}
             run.violation(facts, {"line": x})
         run.extra["rejected_lines"] = len(bad)
+        # ---- the password-change exchange (KPasswd.tla), bound end to end: replies of a service the client can authenticate, and an attacker's
+        import sysk5
+        info, slines, problem = sysk5.run_kpasswd(run, quick=not run.thorough)
+        run.extra["system_spec_kpasswd"] = info
+        if problem:
+            run.violation({"system_trace": "kpasswd"}, {"problem": problem, "events": slines[:400]})
+        else:
+            run.cov["traces_validated_against_impl"] += info.get("events", 0)
+            run.cov["evaluations"] += info["exchanges"]
         run.assumptions += ["times are 60 s beyond the 300 s skew; exact boundaries are not distinguished",
                             "ticket realm of an AS-REP and server name of a TGS-REP are not constrained by the statement (either outcome accepted)",
                             "TGSRep.Verify is not given the client's realm: crealm is required only at the Client level",
